@@ -4,10 +4,11 @@ Require Import Lia Permutation.
 
 Lemma term_eqb_spec : forall a b, reflect (a = b) (term_eqb a b).
 Proof.
-  intros [x|x|k l] [y|y|k' l']; simpl; try (constructor; congruence).
+  induction a as [x|x|k l|s IHs p IHp o IHo]; intros [y|y|k' l'|s' p' o']; simpl; try (constructor; congruence).
   - destruct (N.eqb_spec x y); constructor; congruence.
   - destruct (N.eqb_spec x y); constructor; congruence.
   - destruct (N.eqb_spec k k'), (N.eqb_spec l l'); simpl; constructor; congruence.
+  - destruct (IHs s'), (IHp p'), (IHo o'); simpl; constructor; congruence.
 Qed.
 
 Lemma ograph_eqb_spec : forall a b, reflect (a = b) (ograph_eqb a b).
